@@ -341,7 +341,11 @@ func BuildCte(query *Query, expr *sqlparser.With) error {
 			if err != nil {
 				return nil, err
 			}
-			data[copy.ID.String()] = rs
+			// the evaluated rows stay behind a CTE entry: the registry is also the
+			// `dual` row, where a plain value would be taken for a column
+			data[copy.ID.String()] = CteEvaluation(func() (any, error) {
+				return rs, nil
+			})
 			return rs, nil
 		})
 	}
